@@ -317,6 +317,21 @@ func doCompile(j *job, res map[string]any) {
 				if e2 == "" {
 					r["again_equals_fresh"] = bytes.Equal(b2, b3)
 				}
+				// opts.repeat: further compilations of the freshly lowered module (output that depends on Go's randomised
+				// map iteration differs only with some probability per compilation)
+				if rep := j.OptInt("repeat", 0); rep > 0 && bytes.Equal(b1, b3) {
+					for k := 0; k < rep; k++ {
+						bk, ek := compileOnce(singleEP(mod2, i), opts)
+						if ek != "" || !bytes.Equal(b1, bk) {
+							r["deterministic"] = false
+							r["repeat_differs_at"] = k
+							if ek == "" {
+								r["hex_fresh"] = hex.EncodeToString(bk)
+							}
+							break
+						}
+					}
+				}
 			}
 		}
 		eps = append(eps, r)
